@@ -181,14 +181,24 @@ theorem numAt_eq (s : Txt) (j : Nat) :
     · simp only [he, Bool.false_eq_true, if_false]
       split <;> simp
 
-/-- the match attempt after an occurrence of the keyword: ` ?= ?`, an optional `-` (not captured), the numeral -/
+/-- the match attempt after an occurrence of the keyword: ` ?= ?`, then the captured group: an optional `-` (when the pattern
+has `-?`; inside the group since fix A30) and the numeral -/
 def numAfter (neg : Bool) (l : List Char) : Option (List Char) :=
   match headLen l with
   | none => none
   | some h =>
     let l0 := l.drop h
     let sg := if neg && l0.head? == some '-' then 1 else 0
-    (numLen (l0.drop sg)).map fun n => (l0.drop sg).take n
+    (numLen (l0.drop sg)).map fun n => l0.take sg ++ (l0.drop sg).take n
+
+theorem slice_toList' (s : Txt) (a b : Nat) : (slice s a b).toList = (s.toList.drop a).take (b - a) := by
+  unfold slice
+  rw [Array.toList_extract, List.extract_eq_take_drop]
+  by_cases hle : b ≤ s.size
+  · congr 1; omega
+  · rw [List.take_of_length_le, List.take_of_length_le]
+    · simp only [List.length_drop, Array.length_toList]; omega
+    · simp only [List.length_drop, Array.length_toList]; omega
 
 theorem matchNumAt_eq (s kw : Txt) (neg : Bool) (i : Nat) (h : startsAt s kw i = true) :
     matchNumAt s kw neg i = (numAfter neg (s.toList.drop (i + kw.size))).map List.toArray := by
@@ -199,25 +209,21 @@ theorem matchNumAt_eq (s kw : Txt) (neg : Bool) (i : Nat) (h : startsAt s kw i =
   | none => rfl
   | some a =>
     simp only [Option.map_some, List.drop_drop]
-    have e1 : (if (neg && decide (a + b < s.size) && s[a + b]! == '-') = true then a + b + 1 else a + b) =
-        b + a + (if (neg && (s.toList.drop (b + a)).head? == some '-') = true then 1 else 0) := by
+    have e1 : (if (neg && decide (a + b < s.size) && s[a + b]! == '-') = true then 1 else 0) =
+        (if (neg && (s.toList.drop (b + a)).head? == some '-') = true then 1 else 0) := by
       rw [Bool.and_assoc, charAt_eq, Nat.add_comm a b]
-      split <;> rfl
     rw [e1, numAt_eq]
     generalize (if (neg && (s.toList.drop (b + a)).head? == some '-') = true then 1 else 0) = sg
-    rw [Option.map_map]
+    rw [Option.map_map, Option.map_map, Nat.add_comm a b]
     cases hn : numLen (s.toList.drop (b + a + sg)) with
     | none => rfl
     | some n =>
       simp only [Option.map_some, Function.comp, Option.some.injEq]
       apply Array.toList_inj.1
-      unfold slice
-      rw [Array.toList_extract, List.extract_eq_take_drop]
-      by_cases hle : b + a + sg + n ≤ s.size
-      · congr 1; omega
-      · rw [List.take_of_length_le, List.take_of_length_le]
-        · simp only [List.length_drop, Array.length_toList]; omega
-        · simp only [List.length_drop, Array.length_toList]; omega
+      rw [Array.toList_append, slice_toList', slice_toList']
+      have e2 : b + a + sg - (b + a) = sg := by omega
+      have e3 : b + a + sg + n - (b + a + sg) = n := by omega
+      rw [e2, e3]
 
 /-! ## first successful attempt over all occurrences -/
 
@@ -742,7 +748,7 @@ def needL (o : Option (List Char)) : Except Err (List Char) :=
 def readEntryL (isI : Bool) (el : List Char) : Except Err (List String) := do
   if isI then
     let s1 ← needL (scanL "xmin".toList (numAfter true) el)
-    let e1 ← needL (scanL "xmax".toList (numAfter false) el)
+    let e1 ← needL (scanL "xmax".toList (numAfter true) el)
     let lb ← needL (scanL "text".toList (textAfter true) el)
     pure [String.ofList s1, String.ofList e1, String.ofList (unescapeL (stripList lb))]
   else
@@ -756,9 +762,9 @@ def readTierL (tt : List Char) : Except Err RawTier := do
   let d := splitL (kw ++ [' ', '[']) (kw ++ ['[']) 0 tt []
   let hdr := d.headD []
   let els := d.drop 1
-  let name ← needL (scanL "name".toList (textAfter false) hdr)
+  let name ← needL (scanL "name".toList (textAfter true) hdr)
   let st ← needL (scanL "xmin".toList (numAfter true) hdr)
-  let en ← needL (scanL "xmax".toList (numAfter false) hdr)
+  let en ← needL (scanL "xmax".toList (numAfter true) hdr)
   let entries ← els.mapM (readEntryL isI)
   pure ({ cls := if isI then "IntervalTier" else "TextTier", name := String.ofList (unescapeL name), xmin := String.ofList st,
           xmax := String.ofList en, entries := entries } : RawTier)
@@ -813,7 +819,7 @@ theorem readEntryLong_eq (isI : Bool) (el : List Char) : readEntryLong isI el.to
     cases needL (scanL "xmin".toList (numAfter true) el) with
     | error e => rfl
     | ok a =>
-      cases needL (scanL "xmax".toList (numAfter false) el) with
+      cases needL (scanL "xmax".toList (numAfter true) el) with
       | error e => rfl
       | ok b =>
         cases needL (scanL "text".toList (textAfter true) el) with
@@ -853,13 +859,13 @@ theorem readTierLong_eq (tt : List Char) : readTierLong tt.toArray = readTierL t
   simp only [hh, hd, matchText_eq _ _ _ (show 0 < (lit "name").size by decide),
     matchNum_eq _ _ _ (show 0 < (lit "xmin").size by decide), matchNum_eq _ _ _ (show 0 < (lit "xmax").size by decide),
     e1, e2, e3, need_map, mapM_map_toArray _ _ (readEntryLong_eq isI)]
-  cases needL (scanL "name".toList (textAfter false) (d.headD [])) with
+  cases needL (scanL "name".toList (textAfter true) (d.headD [])) with
   | error e => rfl
   | ok a =>
     cases needL (scanL "xmin".toList (numAfter true) (d.headD [])) with
     | error e => rfl
     | ok b =>
-      cases needL (scanL "xmax".toList (numAfter false) (d.headD [])) with
+      cases needL (scanL "xmax".toList (numAfter true) (d.headD [])) with
       | error e => rfl
       | ok c =>
         simp only [Except.map, bind, Except.bind, hu, toStr_toArray']
